@@ -2,6 +2,7 @@ SPECIFICATION Spec
 CONSTANTS
   MaxXfers = 2
   MaxMid = 0
+  Sources <- BothSrc
   Emit = FALSE
   FixF30 <- FixOff
 INVARIANT WF
